@@ -150,15 +150,17 @@ def countFree (S : Strm σ) (ft : FatType) (s : σ) (total : Nat) : Prog (Nat ×
     let (_, s) ← S.seek s (.start 8)
     countFreeLoop S ft (total + 2) s 2 endC 0
 
-/-- `alloc_cluster`: next-fit from the hint, one retry from the start. The retry handler is the Rust
-    `Err(_) if start_cluster > RESERVED_FAT_ENTRIES` — it catches EVERY error of the first scan (finding F9). -/
+/-- `alloc_cluster`: next-fit from the hint, one retry from the start after `NotEnoughSpace`
+    (`Err(Error::NotEnoughSpace) if start_cluster > RESERVED_FAT_ENTRIES`); every other error is propagated. -/
 def allocCluster (S : Strm σ) (ft : FatType) (s : σ) (prev hint : Option Nat) (total : Nat) : Prog (Nat × σ) := do
   let endC := total + 2
   let start := match hint with
     | some n => if n < endC then n else 2
     | none => 2
   let (newC, s) ← Prog.tryCatch (findFree S ft s start endC) (fun e =>
-    if start > 2 then findFree S ft s 2 start else .fail e)
+    match e with
+    | .noSpace => if start > 2 then findFree S ft s 2 start else .fail .noSpace
+    | e => .fail e)
   let s ← set S ft s newC .eoc
   let s ← (match prev with
     | some n => set S ft s n (.data newC)
@@ -183,16 +185,19 @@ def CIter.next (S : Strm σ) (ft : FatType) (it : CIter σ) : Prog (Option (Exce
         pure (nxt.map Except.ok, { it with fat := fat, cluster := nxt }))
         (fun e => pure (some (.error e), { it with err := true }))
 
-/-- `ClusterIterator::free`: the result of `next()` is ignored (finding F10: with the latch set the loop never ends) -/
+/-- `ClusterIterator::free`: an error item of `next()` is returned -/
 def CIter.freeLoop (S : Strm σ) (ft : FatType) : Nat → CIter σ → Nat → Prog (Nat × CIter σ)
   | 0, _, _ => .fail .hang
   | fuel + 1, it, num =>
     match it.cluster with
     | none => pure (num, it)
     | some n => do
-      let (_, it) ← CIter.next S ft it
-      let fat ← set S ft it.fat n .free
-      CIter.freeLoop S ft fuel { it with fat := fat } (num + 1)
+      let (r, it) ← CIter.next S ft it
+      match r with
+      | some (.error e) => .fail e
+      | _ => do
+        let fat ← set S ft it.fat n .free
+        CIter.freeLoop S ft fuel { it with fat := fat } (num + 1)
 
 def CIter.free (S : Strm σ) (ft : FatType) (fuel : Nat) (it : CIter σ) : Prog (Nat × CIter σ) :=
   CIter.freeLoop S ft fuel it 0
@@ -202,9 +207,12 @@ def CIter.truncate (S : Strm σ) (ft : FatType) (fuel : Nat) (it : CIter σ) : P
   match it.cluster with
   | none => pure (0, it)
   | some n => do
-    let (_, it) ← CIter.next S ft it
-    let fat ← set S ft it.fat n .eoc
-    CIter.free S ft fuel { it with fat := fat }
+    let (r, it) ← CIter.next S ft it
+    match r with
+    | some (.error e) => .fail e
+    | _ => do
+      let fat ← set S ft it.fat n .eoc
+      CIter.free S ft fuel { it with fat := fat }
 
 /-- `read_fat_flags` -/
 def readFatFlags (S : Strm σ) (ft : FatType) (s : σ) : Prog ((Bool × Bool) × σ) :=
